@@ -16,6 +16,7 @@ package simrt
 import (
 	"fmt"
 	"os"
+	"reflect"
 	"runtime"
 	"runtime/debug"
 	"sort"
@@ -779,4 +780,95 @@ func Stack() []byte {
 func IsAbort(p interface{}) bool {
 	_, ok := p.(abortSentinel)
 	return ok
+}
+
+// ---------------------------------------------------------------------------------
+// select
+
+// SelCase is one communication clause of a select statement.
+type SelCase struct {
+	Ch   interface{}
+	Send bool
+	Val  interface{}
+}
+
+func RecvCase(ch interface{}) SelCase               { return SelCase{Ch: ch} }
+func SendCase(ch interface{}, v interface{}) SelCase { return SelCase{Ch: ch, Send: true, Val: v} }
+
+// Select replaces the select statement. When several clauses are ready the Go runtime
+// picks one at random; here the clauses are tried one at a time in an order taken from the
+// choice stream, so the pick is a recorded, replayable decision. It returns the index of the
+// clause that proceeded (-1: default), and for a receive the value and the ok flag.
+func Select(hasDefault bool, cases ...SelCase) (int, interface{}, bool) {
+	rc := make([]reflect.SelectCase, len(cases))
+	chs := make([]interface{}, 0, len(cases))
+	for i, c := range cases {
+		v := reflect.ValueOf(c.Ch)
+		if c.Send {
+			val := reflect.ValueOf(c.Val)
+			if !val.IsValid() {
+				val = reflect.Zero(v.Type().Elem())
+			}
+			rc[i] = reflect.SelectCase{Dir: reflect.SelectSend, Chan: v, Send: val}
+		} else {
+			rc[i] = reflect.SelectCase{Dir: reflect.SelectRecv, Chan: v}
+		}
+		chs = append(chs, c.Ch)
+	}
+	out := func(i int, recv reflect.Value, ok bool) (int, interface{}, bool) {
+		if i >= 0 && !cases[i].Send && recv.IsValid() {
+			return i, recv.Interface(), ok
+		}
+		return i, nil, ok
+	}
+	s := active()
+	if s == nil {
+		all := rc
+		if hasDefault {
+			all = append(append([]reflect.SelectCase{}, rc...), reflect.SelectCase{Dir: reflect.SelectDefault})
+		}
+		i, recv, ok := reflect.Select(all)
+		if hasDefault && i == len(rc) {
+			i = -1
+		}
+		return out(i, recv, ok)
+	}
+	t := s.cur
+	s.park(t, whyChan)
+	s.chanRelease(t, chs)
+	order := make([]int, len(rc))
+	for i := range order {
+		order[i] = i
+	}
+	for i := len(order) - 1; i > 0; i-- {
+		j := Draw(i + 1)
+		order[i], order[j] = order[j], order[i]
+	}
+	for _, i := range order {
+		c, recv, ok := reflect.Select([]reflect.SelectCase{rc[i], {Dir: reflect.SelectDefault}})
+		if c == 0 {
+			s.chanAcquire(t, chs)
+			return out(i, recv, ok)
+		}
+	}
+	if hasDefault {
+		return -1, nil, false
+	}
+	// nothing is ready: block for real. Whoever makes a clause ready resolves the select at
+	// that moment, so exactly one clause can fire: no hidden choice is left.
+	s.mu.Lock()
+	t.state = stExternal
+	s.mu.Unlock()
+	i, recv, ok := reflect.Select(rc)
+	Post(&Handle{t: t, chs: chs})
+	return out(i, recv, ok)
+}
+
+// Elem converts the value received by Select to the element type of ch.
+func Elem[T any](ch <-chan T, v interface{}) T {
+	if v == nil {
+		var z T
+		return z
+	}
+	return v.(T)
 }
